@@ -692,7 +692,25 @@ def _shape_rules(ctx: Ctx, rs: RuleSet):
           tg = [unparse(e) for e in gen.target.elts] if isinstance(
               gen.target, ast.Tuple) else []
           ea = n.elt.args
-          ok = (za == ['path_elements', 'values'] and len(tg) == 2 and
+          # the zipped sequences are the path elements and the flattened
+          # values of the same traverser for the same structure
+          pe_src = vals_src = None
+          for st in walk_function(tv.node):
+            if isinstance(st, ast.Assign) and isinstance(st.value, ast.Call) \
+                and isinstance(st.value.func, ast.Attribute):
+              t0 = st.targets[0]
+              if st.value.func.attr == 'path_elements' and isinstance(
+                  t0, ast.Name) and len(za) == 2 and t0.id == za[0]:
+                pe_src = (unparse(st.value.func.value),
+                          [unparse(a) for a in st.value.args])
+              if st.value.func.attr == 'flatten' and isinstance(
+                  t0, ast.Tuple) and len(za) == 2 and unparse(
+                      t0.elts[0]) == za[1]:
+                vals_src = (unparse(st.value.func.value),
+                            [unparse(a) for a in st.value.args])
+          same_trav = (pe_src is not None and pe_src == vals_src and
+                       pe_src[1] == [tv.params[1]])
+          ok = (same_trav and len(tg) == 2 and
                 len(ea) == 2 and unparse(ea[1]) == tg[1] and
                 tg[0] in unparse(ea[0]) and tv.params[0] in unparse(ea[0]))
   rs.check(ok, rule, f'{lt.qualname}',
